@@ -95,6 +95,13 @@ CLAIMED["C15"] = {
   "technique": "machine-checked proof in Lean 4 (decoder invariant for arbitrary bytes, index and slice bounds, byte-order round trip) + model/implementation correspondence on damaged files + safety/allocation oracles",
 }
 
+CLAIMED["C09"] = {
+  "text": "Lean 4: every function of the model (tokenizer, parameter parsing, macro expansion, pipeline instantiation and application, every built-in operator except the three grid operators, grid file decoders, angular functions) is accepted by Lean only with a termination proof, so the model itself cannot loop; theorems (Geodesy/Props/C09.lean) discharge the guards of the partial operations the modelled code performs, stated with strict versions that fail outside their domain: both Vec::remove calls and both Vec::insert calls of parse_proj/tidy_proj are in range for every element list (tidy_removes_in_bounds, globals_insert_in_bounds, inv_insert_in_bounds), the magnitude of every i32 fits unsigned_abs (unsigned_abs_fits), instantiation never exhausts the recursion budget and parameter look-up always terminates with a value or a proper error (op_new_total, chase_total, from C04); grid decoding and look-up bounds are C15's, stack underflow C12's. Tied to /repo by a correspondence run in which the model predicts handle-or-error (with the error variant), success count and values for adversarial input: every modelled operator with adversarial values on every gamut key and coordinate tuples drawn from all f64 classes (NaN, infinities, signed zeros, subnormals, MAX, poles, antimeridian), the tokenizer functions and parse_proj on mutated definitions (multi-byte characters, control characters, truncations, duplicated slices), the angular functions on extreme arguments; a panic, abort or hang of the implementation is a disagreement. Safety oracles on the implementation (watchdog-supervised worker processes, catch_unwind, 3 GiB allocation cap): every built-in operator bare/inv/omit_*, with adversarial values, the definitions found in the library's own tests on adversarial coordinates and under mutation, grammar-generated pipelines and (self-referential, cyclic) macros, PROJ syntax incl. all ellipsoid spellings, grid operators with present/missing/optional/null/empty grid lists, Minimal and Plain contexts, 4D/2D/32-bit containers, empty operand sets, the ellipsoid module's public functions on arbitrary (a, f) and arguments, Ellipsoid::named on any text.",
+  "design_ref": "DESIGN.md section 7, C09",
+  "note": "Partial: absence of panics in the compiled Rust code is established by the correspondence and the oracles (sampling), not by the theorems, which cover the model and the listed guards; stack overflow and allocation failure are observed as worker crashes only.",
+  "technique": "machine-checked proof in Lean 4 (totality of the model, guard lemmas for the partial operations) + model/implementation correspondence on adversarial input + supervised safety oracles",
+}
+
 ALL = ["C%02d" % i for i in range(1, 21)]
 
 def main():
